@@ -197,7 +197,8 @@ macro_rules! safe_join_rec_harness {
             // Under Kani the recording model of PathBuf::push decides; in a native playback of a
             // counterexample (no stubbing there) the real std functions ran, so the returned path itself is
             // examined: it must start with the base and contain no `..` component.
-            let bad = if cfg!(kani) {
+            // (a playback is a `cargo test` build: cfg(test) is set there and only there)
+            let bad = if !cfg!(test) {
                 unsafe { C17_PUSH_BAD }
             } else {
                 match r {
